@@ -1182,6 +1182,8 @@ struct Opts {
 
 static LAST_PANIC: Mutex<String> = Mutex::new(String::new());
 static STRICT: AtomicBool = AtomicBool::new(false);
+/// an execution died in the middle (shuttle abort / watchdog): do not run further cases here
+static TAINTED: AtomicBool = AtomicBool::new(false);
 /// what a shuttle execution does with its outcome: panic on failure (default; persists the
 /// schedule), never panic (warm-up, replays), always panic (schedule capture for the self-test)
 #[allow(dead_code)]
@@ -1277,6 +1279,14 @@ fn run_shuttle<S: shuttle::scheduler::Scheduler + 'static>(
                     "oracle"
                 };
                 o.fail(kind, format!("shuttle execution aborted: {msg} / {last}"));
+                // tasks of the aborted execution are leaked and process-global salsa state
+                // (ingredient caches behind shuttle mutexes) may be poisoned: later cases of this
+                // process would fail spuriously, so the child restarts after this case
+                TAINTED.store(true, Ordering::Relaxed);
+                // the trace up to the abort is still replayed through the model
+                if let Err(e) = dg_model::replay(&o.trace) {
+                    o.fail(e.kind, format!("trace line {}: {} [{}]", e.line_no, e.what, e.line));
+                }
                 v.push((o, schedule));
             }
         }
@@ -1304,9 +1314,20 @@ fn replay_case(case: Arc<Case>, schedule: &str, opts: &Opts) -> Vec<(Outcome, Op
     FAIL_MODE.store(FAIL_IGNORE, Ordering::Relaxed);
     // the recorded schedule stops at the panic that persisted it (end of the execution closure,
     // or the deadlock); the few shutdown steps after that point are not part of it
-    let mut scheduler = shuttle::scheduler::ReplayScheduler::new_from_encoded(schedule);
-    scheduler.set_allow_incomplete();
-    let v = run_shuttle(&case, scheduler, opts);
+    // (a panic in the middle of an execution is reproduced by the strict replay; only if that
+    // reports an exhausted schedule the replay is repeated allowing the missing shutdown steps)
+    let mut v = run_shuttle(&case, shuttle::scheduler::ReplayScheduler::new_from_encoded(schedule), opts);
+    let exhausted = v.iter().any(|(o, _)| o.failures.iter().any(|f| f.summary.contains("schedule ended early")));
+    if exhausted {
+        let mut scheduler = shuttle::scheduler::ReplayScheduler::new_from_encoded(schedule);
+        scheduler.set_allow_incomplete();
+        v = run_shuttle(&case, scheduler, opts);
+        if v.is_empty() {
+            let mut o = Outcome::default();
+            o.fail("deadlock", "replay: the schedule was exhausted before the execution produced an outcome".into());
+            v.push((o, None));
+        }
+    }
     FAIL_MODE.store(FAIL_ON_FAILURE, Ordering::Relaxed);
     v
 }
@@ -1389,6 +1410,7 @@ fn run_case(case: Arc<Case>, opts: &Opts) -> Vec<(Outcome, Option<String>)> {
                 o.trace = trace::snapshot();
                 trace::disable();
                 trace::set_yield_seed(0);
+                TAINTED.store(true, Ordering::Relaxed);
                 o.fail(
                     "deadlock",
                     format!(
@@ -1535,6 +1557,110 @@ fn probe(args: &Args) {
     }
 }
 
+/// Parent process: runs the cases in child processes (`--child --from N`), passes their
+/// `CONC-FAIL` lines through, sums their summary fields, and survives a child that dies.
+fn supervise(args: &Args, scenario: &str, cases: usize, opts: &Opts) -> ! {
+    use std::io::{BufRead, BufReader};
+    let t0 = std::time::Instant::now();
+    let exe = std::env::current_exe().expect("current exe");
+    let mut totals: BTreeMap<String, u64> = BTreeMap::new();
+    let add = |totals: &mut BTreeMap<String, u64>, line: &str| {
+        for kv in line.split(' ') {
+            if let Some((k, v)) = kv.split_once('=') {
+                if let Ok(v) = v.parse::<u64>() {
+                    if !matches!(k, "seed" | "elapsed_ms" | "case" | "restart_at") {
+                        *totals.entry(k.to_string()).or_default() += v;
+                    }
+                }
+            }
+        }
+    };
+    let _ = std::fs::create_dir_all(&opts.replay_dir);
+    let mut from = args.num("--from", 0) as usize;
+    let mut crashes = 0u64;
+    let mut restarts = 0u64;
+    while from < cases {
+        let err_path = format!("{}/child-{}-{}-{}.stderr", opts.replay_dir, scenario, MODE, opts.seed);
+        let err = std::fs::File::create(&err_path).expect("stderr file");
+        let mut child = std::process::Command::new(&exe)
+            .args(&args.0)
+            .arg("--child")
+            .arg("--from")
+            .arg(from.to_string())
+            .stdout(std::process::Stdio::piped())
+            .stderr(err)
+            .spawn()
+            .expect("spawn child");
+        let mut last_case: Option<(usize, String)> = None;
+        let mut done = false;
+        let mut restart: Option<usize> = None;
+        for line in BufReader::new(child.stdout.take().unwrap()).lines().map_while(Result::ok) {
+            if let Some(rest) = line.strip_prefix("CONC-CASE ") {
+                let idx = rest.split(' ').next().and_then(|s| s.parse().ok()).unwrap_or(from);
+                last_case = Some((idx, rest.to_string()));
+            } else if line.starts_with("CONC scenario=") {
+                add(&mut totals, &line);
+                match line.split(' ').find_map(|kv| kv.strip_prefix("restart_at=")).and_then(|v| v.parse::<usize>().ok()) {
+                    Some(i) => restart = Some(i),
+                    None => done = true,
+                }
+            } else {
+                println!("{line}");
+            }
+        }
+        let status = child.wait();
+        if done {
+            break;
+        }
+        if let Some(i) = restart {
+            restarts += 1;
+            from = i;
+            continue;
+        }
+        // the child died: account for what it had finished, report the case it was running
+        crashes += 1;
+        let (idx, progress) = last_case.unwrap_or((from, String::new()));
+        add(&mut totals, &progress);
+        let tail: Vec<String> = std::fs::read_to_string(&err_path)
+            .unwrap_or_default()
+            .lines()
+            .rev()
+            .filter(|l| !l.trim().is_empty())
+            .take(3)
+            .map(str::to_string)
+            .collect();
+        let case = gen_case(scenario, idx, case_seed(opts.seed, idx));
+        let mut o = Outcome::default();
+        o.fail("oracle", format!("harness process died while running this case ({status:?}): {}", tail.join(" | ")));
+        let path = write_replay(&case, &o, &None, opts);
+        println!(
+            "CONC-FAIL kind=oracle case={idx} seed={} replay={path} {}",
+            opts.seed,
+            o.failures[0].summary
+        );
+        *totals.entry("failures".into()).or_default() += 1;
+        *totals.entry("cases".into()).or_default() += 1;
+        from = idx + 1;
+    }
+    let get = |k: &str| totals.get(k).copied().unwrap_or(0);
+    let known = ["cases", "executions", "distinct_nontrivial", "blocked_events", "transfers", "dg_ops", "failures"];
+    let extra: String = totals.iter().filter(|(k, _)| !known.contains(&k.as_str())).map(|(k, v)| format!(" {k}={v}")).collect();
+    println!(
+        "CONC scenario={scenario} mode={MODE} cases={} executions={} distinct_nontrivial={} blocked_events={} transfers={} dg_ops={} failures={} seed={} elapsed_ms={}{}{extra}",
+        get("cases"),
+        get("executions"),
+        get("distinct_nontrivial"),
+        get("blocked_events"),
+        get("transfers"),
+        get("dg_ops"),
+        get("failures"),
+        opts.seed,
+        t0.elapsed().as_millis(),
+        if crashes + restarts > 0 { format!(" child_crashes={crashes} child_restarts={restarts}") } else { String::new() },
+    );
+    std::process::exit(if get("failures") > 0 { 1 } else { 0 });
+}
+
 fn main() {
     let args = Args::from_env();
     if args.0.first().map(String::as_str) == Some("probe") {
@@ -1579,6 +1705,13 @@ fn main() {
         }
     }));
 
+    // Cases run in a child process: a salsa bug can abort the process (panic inside a drop while
+    // unwinding, stack overflow); the parent then reports the case and resumes after it.
+    if !args.flag("--child") && !args.flag("--no-isolate") && !args.flag("--selftest-replay") && args.get("--replay").is_none() {
+        supervise(&args, &scenario, cases, &opts);
+    }
+    let child = args.flag("--child");
+
     IN_CASE.store(true, Ordering::Relaxed);
     warm_up(&opts);
     IN_CASE.store(false, Ordering::Relaxed);
@@ -1610,7 +1743,7 @@ fn main() {
             .map(|t| t.lines().map(str::to_string).collect::<Vec<_>>());
         todo.push((Arc::new(case), Some(schedule)));
     } else {
-        for i in 0..cases {
+        for i in (args.num("--from", 0) as usize)..cases {
             todo.push((Arc::new(gen_case(&scenario, i, case_seed(opts.seed, i))), None));
         }
     }
@@ -1626,7 +1759,22 @@ fn main() {
     let mut distinct: HashSet<(u64, u64)> = HashSet::new();
     let mut notes: BTreeMap<&'static str, usize> = BTreeMap::new();
     let mut dg_ops = 0usize;
+    let mut restart_at: Option<usize> = None;
     for (case, schedule) in todo {
+        if child && TAINTED.load(Ordering::Relaxed) {
+            restart_at = Some(case.index);
+            break;
+        }
+        if child {
+            use std::io::Write as _;
+            println!(
+                "CONC-CASE {} cases={n_cases} executions={n_exec} distinct_nontrivial={} blocked_events={blocked} transfers={transfers} dg_ops={dg_ops} failures={failures}{}",
+                case.index,
+                distinct.len(),
+                notes.iter().map(|(k, v)| format!(" {k}={v}")).collect::<String>()
+            );
+            let _ = std::io::stdout().flush();
+        }
         n_cases += 1;
         IN_CASE.store(true, Ordering::Relaxed);
         let outs = match &schedule {
@@ -1701,12 +1849,16 @@ fn main() {
     }
     let notes: Vec<String> = notes.iter().map(|(k, v)| format!("{k}={v}")).collect();
     println!(
-        "CONC scenario={scenario} mode={MODE} cases={n_cases} executions={n_exec} distinct_nontrivial={} blocked_events={blocked} transfers={transfers} dg_ops={dg_ops} failures={failures} seed={} elapsed_ms={}{}{}",
+        "CONC scenario={scenario} mode={MODE} cases={n_cases} executions={n_exec} distinct_nontrivial={} blocked_events={blocked} transfers={transfers} dg_ops={dg_ops} failures={failures} seed={} elapsed_ms={}{}{}{}",
         distinct.len(),
         opts.seed,
         t0.elapsed().as_millis(),
         if notes.is_empty() { "" } else { " " },
-        notes.join(" ")
+        notes.join(" "),
+        match restart_at {
+            Some(i) => format!(" restart_at={i}"),
+            None => String::new(),
+        }
     );
     std::process::exit(if failures > 0 { 1 } else { 0 });
 }
